@@ -49,6 +49,7 @@ fn main() {
     if args.len() >= 3 && args[1] == "C02-trace" { let d = tempfile::tempdir().unwrap(); for (i, t) in crash::protocol_traces(d.path(), &args[2]).iter().enumerate() { println!("{} {:?}", i, t); } return; }
     if args.len() >= 8 && args[1] == "C20-child" { c20::child(&args[2..]); return; }
     if args.len() >= 3 && args[1] == "C17-child" { c17::child(&args[2..]); return; }
+    if args.len() >= 3 && args[1] == "C17-writer" { c17::writer_child(&args[2..]); return; }
     if args.len() >= 4 && args[1] == "C18-child" { c18::child(&args[2..]); return; }
     if args.len() >= 5 && args[1] == "C22-child" { c22::child(&args[2..]); return; }
     if args.len() >= 4 && args[1] == "C23-child" { c23::child(&args[2..]); return; }
